@@ -8,7 +8,7 @@ pub const DEF: PropDef = PropDef {
     id: "C08",
     rule: "(1) systematic: every word of the live dictionary applied to every tuple of argument classes up to arity 2 (exhaustive) and arity 3 (sampled in quick, exhaustive in thorough) from {nil, flags, 0, +-1, 255, 2^63-1, 2^63, 2^64-1, 2^64, i128 min/max, isize min, 0.0, -0.0, 1.5, inf, NaN, empty/short/76-byte non-ASCII/long strings, empty/aligned/unaligned bit-strings, empty/flat/nested vectors, maps, tagged values, values with a hand-made #fmt tag}, \
 on a clone of a booted interpreter with a binary input open and output intercepted; immediate words are followed by the token shapes they parse (names, literals, comments, let patterns, unbalanced closers), also inside definitions, builders and meta blocks. After the call: error formatting (pretty_error, Display/Debug of the error, format_cell and format_cell_safe of the top of the stack), the debugger views (location_from_current_ip, fmt_opcode over the newest code, var_list) and a follow-up `depth`. \
-(2) token soups (2/3 of the random cases): 1-40 tokens from the live dictionary, literals of every type, control words in balanced and unbalanced arrangements and arbitrary UTF-8 fragments, spread over a generated sequence of eval / compile / run / next / rnext / error-formatting / recording calls on one interpreter. (3) debugger sessions (1/3): a program from a pool (loops, foreach, calls, locals, builders, cursor) is compiled and stepped into with next(), interrupted by failing or unrelated submissions (eval / compile), resumed with run / next / rnext, with recording on or off. All with limits set (20000 instructions, stack 2000, heap 4096) and in both build profiles. \
+(2) token soups (2/3 of the random cases): 1-40 tokens from the live dictionary, literals of every type, control words in balanced and unbalanced arrangements and arbitrary UTF-8 fragments, spread over a generated sequence of eval / compile / run / next / rnext / error-formatting / recording calls and embedding-API calls (push_data / pop_data, defvar / get_var / set_var / update_var with valid and wild references, set_binary_input, eval_file / compile_file of a missing file, output interception, clone) on one interpreter. (3) debugger sessions (1/3): a program from a pool (loops, foreach, calls, locals, builders, cursor) is compiled and stepped into with next(), interrupted by failing or unrelated submissions (eval / compile), resumed with run / next / rnext, with recording on or off. All with limits set (20000 instructions, stack 2000, heap 4096) and in both build profiles. \
 Oracle: every call returns; any unwind (caught) or death of the worker process (attributed by re-running the worker with per-case logging) is a violation; argument positions that are allocation sizes (int!/uint! width) are kept <= 4096, an out-of-memory abort is inconclusive. \
 Non-trivial = the call reached a native word with all its operands present or a source of >=3 tokens; distinct = hash of word+classes or of the soup",
     assumptions: &["panic signature = (word, normalised panic message, source file); the external words (exec-piped, read-all, write-all, include, require) and the random words are stubbed", "instruction / stack / heap limits are always set, as the statement requires"],
@@ -454,7 +454,7 @@ pub fn case(ch: &mut Choices, ctx: &CaseCtx) -> CaseOut {
         if std::env::var("VERIF_TRACE").is_ok() {
             eprintln!("TRACE after: {:?}", log.last());
         }
-        let call = ch.weighted(&[8, 4, 3, 3, 2, 1, 1]);
+        let call = ch.weighted(&[8, 4, 3, 3, 2, 1, 1, 2]);
         let r: Result<(), String> = match call {
             0 | 1 => {
                 let nt = 1 + ch.below(if call == 0 { 12 } else { 8 });
@@ -498,6 +498,58 @@ pub fn case(ch: &mut Choices, ctx: &CaseCtx) -> CaseOut {
                         if xs.rnext().is_err() {
                             break;
                         }
+                    }
+                })
+            }
+            7 => {
+                // the embedding API: data stack access, variables, binary input, file submissions
+                let which = ch.below(8);
+                let nclasses = CLASSES.with(|c| c.len());
+                let ci = ch.below(nclasses);
+                let (cname, cval) = CLASSES.with(|c| (c[ci].0, c[ci].1.clone()));
+                log.push(format!("api call #{} ({})", which, cname));
+                guard(|| match which {
+                    0 => {
+                        let _ = xs.push_data(cval.clone());
+                    }
+                    1 => {
+                        let _ = xs.pop_data();
+                        let _ = xs.top_data().map(|c| c.clone());
+                    }
+                    2 => {
+                        if let Cell::Bitstr(b) = cval.value() {
+                            let _ = xs.set_binary_input(b.clone());
+                        }
+                    }
+                    3 => {
+                        let _ = xs.eval_file(Xstr::from("/nonexistent/verif.xeh"));
+                        let _ = xs.compile_file(Xstr::from("/nonexistent/verif.xeh"));
+                    }
+                    4 => {
+                        let r = xs.defvar(Xstr::from("apivar"), cval.clone());
+                        if let Ok(cref) = r {
+                            let _ = xs.get_var(cref).map(|c| c.clone());
+                            let _ = xs.set_var(cref, Cell::Nil);
+                            let _ = xs.update_var(cref, |old| Ok(old.clone()));
+                        }
+                        let _ = xs.get_var(CellRef::heap_ref(usize::MAX - 1)).map(|c| c.clone());
+                        let _ = xs.set_var(CellRef::heap_ref(1 << 40), cval.clone());
+                    }
+                    5 => {
+                        let _ = xs.get_var_value("input").map(|c| c.clone());
+                        let _ = xs.get_var_value("no-such-variable").map(|c| c.clone());
+                        let _ = xs.word_list().len();
+                    }
+                    6 => {
+                        let _ = xs.intercept_output(false);
+                        let _ = xs.intercept_output(true);
+                        let _ = xs.read_stdout();
+                    }
+                    _ => {
+                        let c = xs.clone();
+                        drop(c);
+                        let _ = xs.get_data(3).cloned();
+                        let _ = xs.data_depth();
                     }
                 })
             }
